@@ -213,7 +213,9 @@ def run_tlc(module, cfg=None, env=None, workers=1, timeout=1800, xmx="4g", simul
     if deque:
         cmd.append("-Dtlc2.tool.queue.IStateQueue=StateDeque")
     cmd += ["-cp", TLA_CP, "tlc2.TLC", "-workers", str(workers), "-metadir", meta,
-            "-noGenerateSpecTE", "-config", cfg or (module + ".cfg")]
+            "-noGenerateSpecTE", "-checkpoint", "0", "-config", cfg or (module + ".cfg")]
+    # -checkpoint 0: no periodic checkpoints (StateDeque throws UnsupportedOperationException at the first one, i.e.
+    # after 30 minutes of a trace validation on a loaded machine)
     if simulate:
         cmd += ["-simulate", simulate]
     if extra:
